@@ -12,7 +12,11 @@ definitions until they meet the payload of the popped left (`.0`) or right (`.1`
               collection it is a sub-collection of.
 
 Queries (z3; the call site resp. the kind is the symbolic variable): exists a site with side_a = side_b; exists a kind
-with iterates(k) and not compares_length(k); exists a `should_visit` site whose key derives from one side only.
+with iterates(k) and not compares_length(k); exists a `should_visit` site whose key derives from one side only; exists a path from the (Some, Some) arm
+of the pop to a block that answers `true` without going through the pop again.
+
+  verdict     the handler answers `true` only when both work lists are empty: a `return true` inside an arm ends the
+              comparison with pairs still waiting.
 
   visited-key the handler remembers which sub-objects it has already compared (so that shared and cyclic structure is not
               compared again); what it remembers must be the PAIR (left object, right object): a key made from one
@@ -47,6 +51,7 @@ def tables(mir_text):
         raise ValueError("RecursiveEqualityHandler::visit not found in the MIR dump")
     sites, iters, lens = [], set(), set()
     f.visited_sites = []
+    f.len_pairs = set()
     for n, b in sorted(f.blocks.items()):
         if b.cleanup:
             continue
@@ -81,7 +86,66 @@ def tables(mir_text):
                 if is_len and oa[0] != ob[0]:
                     for k in set(oa[1]) & set(ob[1]):
                         lens.add(k)
+                    for ka in oa[1]:
+                        for kb in ob[1]:
+                            f.len_pairs.add((ka, kb) if oa[0] == 0 else (kb, ka))
     return f, sites, iters, lens
+
+
+def _succs(t):
+    if t["kind"] in ("goto", "drop", "call") and "to" in t:
+        return [t["to"]]
+    if t["kind"] == "switch":
+        return [x for _, x in t["targets"]] + ([t["otherwise"]] if t["otherwise"] is not None else [])
+    return []
+
+
+def _verdict_query(f):
+    pops = sorted(n for n, b in f.blocks.items() if not b.cleanup and b.term.get("kind") == "call" and b.term["callee"].endswith("::pop_front"))
+    if len(pops) < 2:
+        raise ValueError("the two pop_front calls of the loop head were not found")
+    head = pops[0]
+    # decision tree on the two popped Options: follow `Some` (discriminant 1) twice
+    x = f.blocks[pops[1]].term["to"]
+    for _ in range(2):
+        hops = 0
+        while f.blocks[x].term["kind"] != "switch" and hops < 4:
+            x = f.blocks[x].term.get("to")
+            hops += 1
+        t = f.blocks[x].term
+        if t["kind"] != "switch":
+            raise ValueError("pop decision tree not recognised")
+        nxt = dict(t["targets"]).get(1)
+        if nxt is None:
+            raise ValueError("no `Some` arm in the pop decision tree")
+        x = nxt
+    some_some = x
+    trues = sorted(n for n, b in f.blocks.items() if not b.cleanup and any(re.match(r"_0 = const true;", st) for st in b.stmts))
+    if not trues:
+        raise ValueError("no block answers `true`")
+    blocks = sorted(n for n, b in f.blocks.items() if not b.cleanup)
+    preds = {}
+    for n in blocks:
+        if n == head:
+            continue
+        for d in _succs(f.blocks[n].term):
+            preds.setdefault(d, []).append(n)
+    lines = ["(set-logic QF_BV)"]
+    for n in blocks:
+        lines.append("(declare-const r%d Bool)(declare-const d%d (_ BitVec 16))" % (n, n))
+    lines.append("(assert r%d)(assert (= d%d (_ bv0 16)))" % (some_some, some_some))
+    for n in blocks:
+        if n == some_some:
+            continue
+        alts = ["(and r%d (bvult d%d d%d))" % (q, q, n) for q in preds.get(n, [])]
+        lines.append("(assert (=> r%d (or false %s)))" % (n, " ".join(alts)))
+    lines.append("(assert (or false %s))" % " ".join("r%d" % n for n in trues))
+    lines.append("(check-sat)")
+    p = subprocess.run(["z3", "-in", "-T:30"], input="\n".join(lines) + "\n", capture_output=True, text=True)
+    first = p.stdout.strip().split("\n")[0] if p.stdout.strip() else "error"
+    if "(error" in p.stdout or first not in ("sat", "unsat"):
+        first = "error"
+    return {"res": first, "true_sites": len(trues), "reached": trues if first == "sat" else []}
 
 
 def _z3(q):
@@ -134,6 +198,25 @@ def analyse(mir_text, kinds):
             res["bad"].append({"fact": "sized", "kind": k})
     elif r != "unsat":
         res["errors"].append("sized: solver error")
+    # sized, vector family: a mutable and an immutable vector are compared with each other in all four combinations; if
+    # any combination compares the lengths, all four must
+    fam = [k for k in ("VectorV", "MutableVector") if k in idx]
+    have = {(a, b) for (a, b) in f.len_pairs if a in fam and b in fam}
+    res["vector_length_pairs"] = sorted(have)
+    if fam:
+        tb = " ".join("(and (= a (_ bv%d 8)) (= b (_ bv%d 8)))" % (idx[x], idx[y]) for x, y in have)
+        dom = lambda v: "(or false %s)" % " ".join("(= %s (_ bv%d 8))" % (v, idx[k]) for k in fam)
+        q = "(set-logic QF_BV)\n(declare-const a (_ BitVec 8))\n(declare-const b (_ BitVec 8))\n(assert %s)\n(assert %s)\n(assert (not (or false %s)))\n(assert %s)\n(check-sat)\n" % (
+            dom("a"), dom("b"), tb, "true" if have else "false")
+        r, out = _z3(q)
+        res["queries"] += 1
+        if r == "sat":
+            for x in fam:
+                for y in fam:
+                    if (x, y) not in have:
+                        res["bad"].append({"fact": "sized", "kind": "%s+%s" % (x, y)})
+        elif r != "unsat":
+            res["errors"].append("sized (vector family): solver error")
     # visited-key: v ranges over the should_visit sites; side mask 1 = left only, 2 = right only, 3 = both
     vs = f.visited_sites
     res["visited_sites"] = len(vs)
@@ -150,6 +233,18 @@ def analyse(mir_text, kinds):
             res["bad"].append({"fact": "visited-key", "kinds": ks, "sites": len([v for v in vs if len(v["sides"]) < 2])})
         elif r != "unsat":
             res["errors"].append("visited-key: solver error")
+    # verdict: `true` is answered only when both work lists are empty -- no block that sets the result to `true` is
+    # reachable from the (Some, Some) arm of the pop without going round the loop (through the pop) again
+    try:
+        v = _verdict_query(f)
+        res["queries"] += 1
+        res["true_sites"] = v["true_sites"]
+        if v["res"] == "sat":
+            res["bad"].append({"fact": "verdict", "blocks": v["reached"]})
+        elif v["res"] != "unsat":
+            res["errors"].append("verdict: solver error")
+    except ValueError as ex:
+        res["errors"].append("verdict: %s" % ex)
     res["dt"] = time.time() - t0
     res["site_list"] = [(s["bb"], s["what"], s["a"], s["b"], s["kinds"]) for s in sites]
     return res
@@ -174,7 +269,28 @@ DAG_PAIRS = [  # ys-* are globals defined by the replay: (list 1 2), (immutable-
     ("(list ys-list ys-list)", "(list ys-list ys-list)", True),
 ]
 
+EARLY_PAIRS = [  # an object met through the pointer short-cut, then a differing element (both orders: the work list is a stack)
+    ("(list ys-hash 1)", "(list ys-hash 2)", False), ("(list 1 ys-hash)", "(list 2 ys-hash)", False),
+    ("(list ys-vec 1)", "(list ys-vec 2)", False), ("(list 1 ys-vec)", "(list 2 ys-vec)", False),
+    ("(list ys-list 1)", "(list ys-list 2)", False), ("(list 1 ys-list)", "(list 2 ys-list)", False),
+    ("(list ys-pair 1)", "(list ys-pair 2)", False), ("(list 1 ys-pair)", "(list 2 ys-pair)", False),
+    ("(list ys-mvec 1)", "(list ys-mvec 2)", False), ("(list 1 ys-mvec)", "(list 2 ys-mvec)", False),
+    ("(list (hashset 1) 1)", "(list (hashset 1) 2)", False), ("(list \"s\" 1)", "(list \"s\" 2)", False),
+    ("(list ys-hash 1)", "(list ys-hash 1)", True),
+]
+
 PAIRS = {
+    # without a length comparison a flat mismatch is still caught when the work lists drain unevenly; nested vectors whose
+    # leaves flatten to the same sequence re-align the lists
+    "VectorV+MutableVector": [("(immutable-vector 1 2)", "(vector 1 2 3)", False), ("(immutable-vector 1 2 3)", "(vector 1 2)", False), ("(immutable-vector 1 2)", "(vector 1 2)", True),
+                              ("(immutable-vector (immutable-vector 1 2) 3)", "(vector 1 (vector 2) 3)", False), ("(immutable-vector 1 (immutable-vector))", "(vector (vector 1))", False),
+                              ("(immutable-vector (immutable-vector 1) 2 3)", "(vector (vector 1 2) 3)", False)],
+    "MutableVector+VectorV": [("(vector 1 2)", "(immutable-vector 1 2 3)", False), ("(vector 1 2 3)", "(immutable-vector 1 2)", False), ("(vector 1 2)", "(immutable-vector 1 2)", True),
+                              ("(vector 1 (vector 2) 3)", "(immutable-vector (immutable-vector 1 2) 3)", False), ("(vector (vector 1))", "(immutable-vector 1 (immutable-vector))", False),
+                              ("(vector (vector 1 2) 3)", "(immutable-vector (immutable-vector 1) 2 3)", False)],
+    "VectorV+VectorV": [("(immutable-vector 1 2)", "(immutable-vector 1 2 3)", False), ("(immutable-vector 1 2 3)", "(immutable-vector 1 2)", False),
+                        ("(immutable-vector (immutable-vector 1 2) 3)", "(immutable-vector 1 (immutable-vector 2) 3)", False)],
+    "MutableVector+MutableVector": [("(vector 1 2)", "(vector 1 2 3)", False), ("(vector 1 2 3)", "(vector 1 2)", False), ("(vector (vector 1 2) 3)", "(vector 1 (vector 2) 3)", False)],
     "HashSetV": [("(hashset 1 2)", "(hashset 3 4)", False), ("(hashset 1 2)", "(hashset 2 1)", True), ("(hashset 1 2)", "(hashset 1 2 3)", False), ("(hashset 1 2 3)", "(hashset 1 2)", False)],
     "HashMapV": [("(hash 1 2)", "(hash 1 2 3 4)", False), ("(hash 1 2 3 4)", "(hash 1 2)", False), ("(hash 1 2)", "(hash 1 3)", False), ("(hash 1 2)", "(hash 3 2)", False), ("(hash 1 2 3 4)", "(hash 3 4 1 2)", True)],
     "ListV": [("(list 1 2)", "(list 1 2 3)", False), ("(list 1 2 3)", "(list 1 2)", False), ("(list 1 2)", "(list 1 3)", False), ("(list 1 2)", "(list 1 2)", True)],
